@@ -132,7 +132,7 @@ def groupAll : List String → Option Src → List (String × String × String) 
         | some s0 => groupAll ws (some s) [] ((s0, acc.reverse) :: out)
     else
       match parseKV w, cur with
-      | some kv, some _ => groupAll ws cur (kv :: acc) out
+      | some kv, some _ => if kv.2.1.isEmpty then none else groupAll ws cur (kv :: acc) out
       | _, _ => none
 
 def step (d : DS) (line : String) : DS × String :=
